@@ -21,7 +21,7 @@ var metas = map[string]PropMeta{
 		Assumptions: []string{"string encodings: N raw name, T pointer-escaped token, P joined tokens, K '#'+P, U URL-escaped K; signatures of jsonpointer.Escape/Unescape, path.Join/Base/Dir, url.PathUnescape, Ref.String as read from their sources; names contain no '%'"},
 	},
 	"C02": {
-		Explanation: "PIPE-ORDER on Flatten (phases identified by what they reach: spec.ExpandSpec, sortref.ReverseIndex, replace.UpdateRefWithSchema) REF-CANONICAL on every $ref written into the root document, GUARD-EMPTYNAME in the naming loop, SYNC-RECORD (a record resolved twice is refreshed in full) and NAME-TOTAL on the function that collects the candidate names (never an empty list).",
+		Explanation: "PIPE-ORDER on Flatten (phases identified by what they reach: spec.ExpandSpec, sortref.ReverseIndex, replace.UpdateRefWithSchema) REF-CANONICAL on every $ref written into the root document, GUARD-EMPTYNAME in the naming loop, SYNC-RECORD (a record resolved twice is refreshed in full), PIPE-RERUN, REF-EQ-RESOLVED and NAME-TOTAL on the function that collects the candidate names (never an empty list).",
 		NotDecided:  []string{"spec.ExpandSpec removing every non-schema $ref", "reaching the import and pointer fixpoints", "absence of $refs the analyzer does not see (C11)"},
 		Assumptions: []string{"the single transient non-canonical write (stripOAIGenForRef re-pointing parents to the first parent) is followed by pointer naming, as its return value requests"},
 	},
@@ -71,7 +71,7 @@ var metas = map[string]PropMeta{
 		Assumptions: idxAssume,
 	},
 	"C15": {
-		Explanation: "Nil-guard dataflow over the four lookups (sources: pointer/map fields of go-openapi/spec structs, map lookups of *spec.T without comma-ok), guard rules on the merge function found by role (takes []spec.Parameter, map[string]spec.Parameter, callback), ordering of the two merge calls in each lookup, GUARD-OPFOUND (every merge happens under a fact that establishes the operation asked for, followed to the call sites of closures and unexported helpers), exhaustiveness of the id lookup over the seven methods.",
+		Explanation: "Nil-guard dataflow over the four lookups (sources: pointer/map fields of go-openapi/spec structs, map lookups of *spec.T without comma-ok), guard rules on the merge function found by role (takes []spec.Parameter, map[string]spec.Parameter, callback), ordering of the two merge calls in each lookup, GUARD-OPFOUND (every merge happens under a fact that establishes the operation asked for, followed to the call sites of closures and unexported helpers), ENC-OVERRIDEKEY, exhaustiveness of the id lookup over the seven methods.",
 		NotDecided:  []string{"collisions of the override key location#GoName", "what jsonpointer returns for exotic $ref targets (trusted base)"},
 		Assumptions: []string{"a call does not nil-out a field of a value it receives", "function results and parameters of exported functions are not maybe-nil sources (only optional fields of the loaded document are)"},
 	},
@@ -91,7 +91,7 @@ var metas = map[string]PropMeta{
 		Assumptions: []string{"Ref.GetURL() != nil characterises a $ref response (go-openapi/jsonreference)"},
 	},
 	"C20": {
-		Explanation: "TERM-REC over the SCC {Schema, inferMap, inferArray, inferFromRef} with measures chosen by search (schema being classified); GUARD-SIMPLEDEF, GUARD-FLAGIMPL, GUARD-EXCL (truth table over the atoms of the defining expressions, has* flags and helper predicates expanded), COV-INHERITS, GUARD-COPYORDER (write-effect summaries of the calls following the copy).",
+		Explanation: "TERM-REC over the SCC {Schema, inferMap, inferArray, inferFromRef} with measures chosen by search (schema being classified); GUARD-SIMPLEDEF, GUARD-FLAGIMPL, GUARD-EXCL (truth table over the atoms of the defining expressions, has* flags and helper predicates expanded), COV-INHERITS, GUARD-COPYORDER (write-effect summaries of the calls following the copy). PIPE-REFEXPAND (the target of a $ref is fully expanded before it is classified).",
 		NotDecided:  []string{"agreement of the classification with the documented rules on concrete schemas", "spec.ExpandSchema behaviour (trusted)"},
 		Assumptions: []string{"flags start false (zero value) and are assigned once outside the wholesale copy", "the schema graph reachable through $ref is finite, so a visited set of $ref strings bounds the recursion"},
 	},
@@ -110,7 +110,7 @@ var metas = map[string]PropMeta{
 		Assumptions: []string{"spec.ExpandSpec expands schema $refs when SkipSchemas is false (read from its source, not analysed)"},
 	},
 	"C14": {
-		Explanation: "Abstract evaluation of analysis.New for the operations index and the required-media/security unions, exhaustiveness over the seven *spec.Operation fields, upper-case discipline of insertion and lookup, the nil-vs-empty guard shape of the precedence functions, and ENC-FORMAT (document strings are operands of formatting calls, never format strings).",
+		Explanation: "Abstract evaluation of analysis.New for the operations index and the required-media/security unions, exhaustiveness over the seven *spec.Operation fields, upper-case discipline of insertion and lookup, the nil-vs-empty guard shape of the precedence functions, ENC-FORMAT (document strings are operands of formatting calls, never format strings), GUARD-INHERIT and GUARD-NOFILTER.",
 		NotDecided:  []string{"the values of the precedence/union tables on concrete lists (value-level)", "OperationForName on duplicate or empty ids (outside the quantifier)"},
 		Assumptions: idxAssume,
 	},
